@@ -212,6 +212,7 @@ impl Elem for Option<f64> {
     }
     fn cell(&self) -> Cell {
         match self {
+            Some(x) if x.is_nan() => Cell::Err,   // Some(NaN) is not a null (DESIGN 5.4)
             Some(x) => Cell::F(*x),
             None => Cell::Null,
         }
